@@ -70,6 +70,27 @@ def op_candidates(files):
     return out
 
 
+def neg_candidates(files):
+    """`if COND {` -> `if !(COND) {` for single-line conditions; `true` <-> `false` literals in argument position."""
+    out = []
+    for f in files:
+        lines = open(os.path.join("/repo", f)).read().split("\n")
+        in_tests = False
+        for i, ln in enumerate(lines):
+            if "#[cfg(test)]" in ln:
+                in_tests = True
+            if in_tests:
+                continue
+            s = ln.strip()
+            m = re.match(r"^(\s*)(\} else )?if (?!let )(.+) \{$", ln)
+            if m and "//" not in ln:
+                out.append((f, i, s, "%s%sif !(%s) {" % (m.group(1), m.group(2) or "", m.group(3))))
+            for a, b_ in (("(true)", "(false)"), ("(false)", "(true)")):
+                if a in ln and not s.startswith(("//", "assert", "debug_assert")):
+                    out.append((f, i, s, ln.replace(a, b_, 1)))
+    return out
+
+
 def candidates(files):
     out = []
     for f in files:
@@ -148,7 +169,7 @@ def main(argv):
     jobs = int(argv[argv.index("--jobs") + 1]) if "--jobs" in argv else 8
     files = argv[argv.index("--files") + 1].split(",") if "--files" in argv else sorted(PLAN)
     out = argv[argv.index("--out") + 1] if "--out" in argv else "/tmp/deletion_sweep.json"
-    cands = op_candidates(files) if "--ops" in argv else candidates(files)
+    cands = op_candidates(files) if "--ops" in argv else neg_candidates(files) if "--neg" in argv else candidates(files)
     print("%d candidate lines in %d files" % (len(cands), len(files)), flush=True)
     with multiprocessing.Pool(jobs) as pool:
         res = list(pool.imap_unordered(run_one, cands, chunksize=1))
